@@ -1529,11 +1529,16 @@ def _search_domain(rng: np.random.Generator, tier: str) -> tuple[Circuit, dict]:
         'gateset': str(rng.choice(list(_SYN_SETS))),
         'thr': float(rng.choice([1e-8, 1e-8, 1e-6, 1e-4])), 'seed': int(rng.integers(1 << 30)),
     }
+    # multi-qudit targets only: the layer generators refuse to expand a
+    # single-qudit circuit, so a one-qudit target is outside their domain
+    # unless the first layer already succeeds (kept: one exact qutrit case)
     r = rng.random()
-    if r < 0.12:
+    if r < 0.1:
         o['gateset'] = 'qutrit'
-        return _sq_circuit(rng, 3), o
-    n = int(rng.choice([1, 2, 2, 3]))
+        c = Circuit(1, [3])
+        c.append_gate(VariableUnitaryGate(1, [3]), 0, vu_params(gen.haar(rng, [3])))
+        return c, o
+    n = int(rng.choice([2, 2, 2, 3]))
     return _shallow_target(rng, n, 2 if n < 3 else 1), o
 
 
